@@ -133,6 +133,9 @@ def _match(lookup_value, lookup_array, match_type=1):
             return val == lookup_value
 
     for i, value in enumerate(lookup_array, 1):
+        if value is None and match_type != 0:
+            # empty cells are not part of the descending data
+            continue
         if value not in ERROR_CODES:
             value = ExcelCmp(value)
             if value.cmp_type == lookup_value.cmp_type and compare(i, value):
